@@ -59,7 +59,7 @@ func (d *dir) ReadDir(n int) ([]hackpadfs.DirEntry, error) {
 		// compare with the remainder: start+n can overflow for a huge n
 		end = start + n
 	}
-	d.offset = end
+	d.offset += end - start
 	return entries[start:end], nil
 }
 
